@@ -51,6 +51,26 @@ def bcast_index(shape, full_shape, idx):
     return tuple(0 if shape[i] == 1 else sub[i] for i in range(nd))
 
 
+# ----------------------------------------------------------------------------- history: the call under contract after other calls
+def with_history(inst, warmup, tag):
+    """The same contract, with `warmup()` (native calls of the library with other sizes / options / objects) executed first in the
+    same process: results are a function of the arguments only (C20), so every obligation must still hold.  Module-level and
+    object-level caches keyed too coarsely show up as failed obligations of the call under contract."""
+    import dataclasses
+    real_call = inst.call
+
+    def call(inp):
+        was = S.RUNNING[0]
+        S.RUNNING[0] = False          # the earlier calls run on plain ndarrays: they create no obligations of their own
+        try:
+            with np.errstate(all='ignore'):
+                warmup()
+        finally:
+            S.RUNNING[0] = was
+        return real_call(inp)
+    return dataclasses.replace(inst, call=call, name='%s-after-%s' % (inst.name, tag))
+
+
 # ----------------------------------------------------------------------------- machine-checked lemmas (Lean 4 + Mathlib)
 LEMMAS = {
     'rayleigh': dict(
@@ -107,6 +127,14 @@ LEMMAS = {
                      'these weighted estimators and that the weight update returns the normalised expected counts; C01 that the E-step is the exact '
                      'posterior; the Lean theorems (Em.lean, GaussMStep.lean) then give monotonicity for every K, N, D in exact arithmetic',
                      'the variance floor / regularisation of the trainers is not part of the Lean statement (positive (definite) estimate is a hypothesis)']),
+    'misc': dict(
+        file='lean/Misc.lean', theorems=['cumPhase_norm', 'phase_correction_aligned', 'psd_mask_scale_invariant', 'complex_mask_reproduces',
+                                         'residual_expand', 'si_sdr_alpha_optimal', 'si_sdr_scale_invariant', 'snr_scaling'],
+        statement='for every number of bins F, sensors D, frames T, sources K: multiplying bin f by the cumulative product of the unit phasors of '
+                  'consecutive inner products keeps every magnitude and makes consecutive bins phase aligned (inner product real, non-negative); '
+                  'the normalised PSD is invariant to rescaling the mask; the ideal complex mask times the mixture reproduces each source and sums '
+                  'to one; the SI-SDR projection coefficient is optimal and the ratio is invariant to rescaling estimate or reference; scaling the '
+                  'signal power by c^2 changes the SNR by 20 log10 |c|'),
     'logdet': dict(
         file='lean/LogDet.lean', theorems=['det_cholesky', 'log_det_cholesky'],
         statement='L lower triangular with positive diagonal  =>  log det(L L^T) = 2 sum_i log L_ii   (all dimensions)'),
@@ -273,9 +301,20 @@ SIMPLEX_USE = {
 }
 
 
+MISC_USE = {
+    'C10': ('lemma:normalised-psd-invariant-to-mask-rescaling-for-every-T', ['psd_mask_scale_invariant']),
+    'C13': ('lemma:phase-correction-aligns-consecutive-bins-for-every-F-and-D', ['cumPhase_norm', 'phase_correction_aligned']),
+    'C18': ('lemma:complex-mask-reproduces-the-sources-for-every-K', ['complex_mask_reproduces']),
+    'C19': ('lemma:si-sdr-projection-optimal-and-scale-invariant-for-every-T', ['residual_expand', 'si_sdr_alpha_optimal', 'si_sdr_scale_invariant', 'snr_scaling']),
+}
+
+
 def simplex_lemma_instances(prop):
-    if prop not in SIMPLEX_USE:
-        return []
-    func, ths = SIMPLEX_USE[prop]
-    inst = lemma_instance(prop, 'simplex', func, ths)
-    return [inst]
+    out = []
+    if prop in SIMPLEX_USE:
+        func, ths = SIMPLEX_USE[prop]
+        out.append(lemma_instance(prop, 'simplex', func, ths))
+    if prop in MISC_USE:
+        func, ths = MISC_USE[prop]
+        out.append(lemma_instance(prop, 'misc', func, ths))
+    return out
